@@ -45,6 +45,7 @@ type verifScenario struct {
 	} `json:"disk"`
 	Faults     []verifFault `json:"faults"`
 	TickBudget int64        `json:"tick_budget"`
+	NsPerTick  int64        `json:"ns_per_tick"` // speed of the simulated wall clock (for code that reads the time)
 	Log        string       `json:"log"`
 }
 
@@ -56,6 +57,7 @@ var verifSt struct {
 	cap    int64
 	faults []verifFault
 	budget int64
+	nsTick int64
 	reads  int
 	writes int
 	logf   *os.File
@@ -93,6 +95,7 @@ func verifLoad() {
 	verifSt.cap = sc.Disk.Capacity
 	verifSt.faults = sc.Faults
 	verifSt.budget = sc.TickBudget
+	verifSt.nsTick = sc.NsPerTick
 	if sc.Log != "" {
 		f, err := os.OpenFile(sc.Log, os.O_WRONLY|os.O_APPEND|os.O_CREATE, 0644)
 		if err != nil {
@@ -167,6 +170,14 @@ func VerifBudgetExceeded() {
 	os.Stderr.WriteString("=== verif stack 2 ===\n")
 	os.Stderr.Write(debug.Stack())
 	os.Exit(97)
+}
+
+// VerifNsPerTick is how many nanoseconds of simulated wall-clock time pass per tick (at least 1).
+func VerifNsPerTick() int64 {
+	if !verifActive() || verifSt.nsTick < 1 {
+		return 1
+	}
+	return verifSt.nsTick
 }
 
 // VerifDone records that main returned (or is unwinding) and at which tick.
